@@ -26,6 +26,7 @@ pub use crate::global::{
     MAX_FUTURE_TRANSACTION_NONCES, MAX_REORG_HISTORY_SIZE,
 };
 pub use crate::server::verif_rpc_methods;
+pub use crate::server::verif_rpc_methods_with_probe;
 
 /// DB_VERSION / PROTOCOL_VERSION as the crate sees them.
 pub fn versions() -> (u32, u32) {
